@@ -42,6 +42,7 @@ META["text"] += ' R1 also: the pilot data are used as given (not clipped or roun
 META["text"] += ' R2 also: no estimate leaves sample_size before the hypothetical population is built (no shortcut on the data in hand).'
 META["text"] += ' R6 also: the RAIRE helper keeps no memo between calls.'
 META["text"] += ' (R8, N, frame condition on arguments) planning a sample size reads the assertions and the sample so far: every function in scope changes the objects it is handed only in the ways confirmed for it (aud.ARG_EFFECTS); references are followed through aliases, elements, attributes, loop variables, .get/.items/.values and np.asarray, resolved by the bindings that reach the use.'
+META["text"] += ' R6 also: make_overstatement, overstatement_assorter and Assorter.overstatement keep no state between calls (the hypothetical population of an estimate is built from the margin of that moment).'
 
 
 def run(chk):
@@ -133,6 +134,9 @@ def want_crossing(tx, pop):
 def r6_state(chk):
     aud.keeps_no_state(chk, "C16.R6", RE2, ["sample_size", "bp_estimate", "cp_estimate"],
                        "the RAIRE helper's estimate is a function of the tallies and options of the call")
+    aud.keeps_no_state(chk, "C16.R6", aud.REL, ["Assertion.make_overstatement", "Assertion.overstatement_assorter", "Assorter.overstatement"],
+                       "the assumed data of an estimate are built from the margin and bounds as they are at that call (a memo of "
+                       "overstatement values keyed without the margin serves the next estimate the old population)")
 
 
 def r12(chk):
